@@ -116,12 +116,13 @@ static void c11_gap_drill(Buf *b) {
     c11_caps(b);
 }
 
+#include "scen_c11_obj.h"
 static void scen_c11(int histories, int maxops) {
     Buf b = {0};
     for (int h = 0; h < histories; h++) {
         tr("hist %d", h);
         for (int i = 0; i < c11_nctx; i++) free(c11_ctx[i].p);
-        c11_nctx = 0; c11_nh = 0;
+        c11_nctx = 0; c11_nh = 0; c11o_reset();
         tpm2_fresh(h % 3 == 0 ? NULL : (h % 3 == 1 ? PROFILE_DEFAULT_V1 : PROFILE_CUSTOM));
         tpm2_startup(&b, 0);
         c11_epoch++;
@@ -137,7 +138,7 @@ static void scen_c11(int histories, int maxops) {
         }
         int n = 10 + rnd(maxops);
         for (int i = 0; i < n; i++) {
-            switch (rnd(22)) {
+            switch (rnd(28)) {
             case 0: case 1: case 2: case 3: c11_create(&b, chance(70) ? 0 : 1); break;
             case 4: case 5: case 6: case 7: case 8: { /* save a loaded one if any */
                 uint32_t hh = c11_pick_handle(); c11_save(&b, hh); break; }
@@ -170,6 +171,9 @@ static void scen_c11(int histories, int maxops) {
                 }
                 break; }
             case 20: if (chance(30)) c11_gap_drill(&b); break;
+            case 22: case 23: c11o_save_new(&b); break;
+            case 24: case 25: case 26: c11o_load(&b); break;
+            case 27: c11o_event(&b); break;
             default: c11_blob_mutations(&b, 1); break;
             }
         }
